@@ -3,8 +3,10 @@
 
    Text = list of segments (style, bytes).  Go's nil-vs-empty distinction is
    carried by a separate flag in the results ([res]).  The model follows the
-   code including its defects (TrimWcwidth, StyleText, Segment.Concat,
-   Text.Concat with an empty Segment); see props/C33.v for the refutations. *)
+   code after the repairs checks/C33.fixes/*.diff (TrimWcwidth, StyleText of an
+   empty text, Segment.Concat/RConcat, Text.Concat with a Segment); the one
+   remaining defect (StyleText can leave equal neighbouring styles, pinned by
+   an existing test) is still modelled faithfully, see props/C33.v. *)
 From verif Require Import lib.Base lib.Utf8 model.C34_width.
 Open Scope Z_scope.
 
@@ -191,7 +193,7 @@ Section Trim.
     | [] => []
     | (s, x) :: r =>
       let wx := ofb x in
-      if wx >=? n then [(s, trimb x n)]
+      if wx >=? n then text_from_seg (s, trimb x n)    (* appended only when not empty *)
       else (s, x) :: trim_text_g r (n - wx)
     end.
   (* styledWcswidth: the sum of the segments' widths *)
@@ -201,20 +203,13 @@ End Trim.
 Definition trim_text := trim_text_g of_bytes trim_bytes.
 Definition text_width := text_width_g of_bytes.
 
-(* what the proposed repair of TrimWcwidth would return: no trailing empty segment *)
-Definition drop_empty_last (t : text) : text :=
-  match t with
-  | [] => []
-  | _ => if is_nil (snd (last t (style0, []))) then removelast t else t
-  end.
-
 (* ---- Segment.Concat / RConcat, Text.Concat / RConcat ---- *)
-Definition seg_concat_str (s : seg) (rhs : bytes) : text := [s; (style0, rhs)].
-Definition seg_concat_seg (s s2 : seg) : text := [s; s2].
-Definition seg_concat_text (s : seg) (t : text) : text := s :: t.
-Definition seg_rconcat_str (lhs : bytes) (s : seg) : text := [(style0, lhs); s].
+Definition seg_concat_str (s : seg) (rhs : bytes) : text := concat_texts [text_from_seg s; T rhs []].
+Definition seg_concat_seg (s s2 : seg) : text := concat_texts [text_from_seg s; text_from_seg s2].
+Definition seg_concat_text (s : seg) (t : text) : text := concat_texts [text_from_seg s; t].
+Definition seg_rconcat_str (lhs : bytes) (s : seg) : text := concat_texts [T lhs []; text_from_seg s].
 Definition text_concat_str (t : text) (rhs : bytes) : text := concat_texts [t; T rhs []].
-Definition text_concat_seg (t : text) (s : seg) : text := concat_texts [t; [s]].
+Definition text_concat_seg (t : text) (s : seg) : text := concat_texts [t; text_from_seg s].
 Definition text_concat_text (t t2 : text) : text := concat_texts [t; t2].
 Definition text_rconcat_str (lhs : bytes) (t : text) : text := concat_texts [T lhs []; t].
 
@@ -247,12 +242,12 @@ Definition run_op (o : op) : list res :=
   | OpPartition t idxs => map nil_if_empty (partition t idxs)
   | OpSplit t sep => map nil_if_empty (split_text sep t)
   | OpTrim t n => [nil_if_empty (trim_text t n)]
-  | OpStyleText t ts => [(false, style_text t ts)]     (* make(Text, len(t)): never nil *)
+  | OpStyleText t ts => [nil_if_empty (style_text t ts)]   (* nil for an empty text *)
   | OpStyleSeg s ts => [(false, [style_seg s ts])]
-  | OpSegConcatStr s rhs => [(false, seg_concat_str s rhs)]
-  | OpSegConcatSeg s s2 => [(false, seg_concat_seg s s2)]
-  | OpSegConcatText s t => [(false, seg_concat_text s t)]
-  | OpSegRConcatStr lhs s => [(false, seg_rconcat_str lhs s)]
+  | OpSegConcatStr s rhs => [nil_if_empty (seg_concat_str s rhs)]
+  | OpSegConcatSeg s s2 => [nil_if_empty (seg_concat_seg s s2)]
+  | OpSegConcatText s t => [nil_if_empty (seg_concat_text s t)]
+  | OpSegRConcatStr lhs s => [nil_if_empty (seg_rconcat_str lhs s)]
   | OpTextConcatStr t rhs => [nil_if_empty (text_concat_str t rhs)]
   | OpTextConcatSeg t s => [nil_if_empty (text_concat_seg t s)]
   | OpTextConcatText t t2 => [nil_if_empty (text_concat_text t t2)]
